@@ -1,6 +1,6 @@
 From Coq Require Import List Arith Lia Bool.
 Import ListNotations.
-From SV Require Import c15.Conc c15.Model_C15 c15.Proofs_C15 c15.Proofs_C15_Excl c15.Properties_C15.
+From SV Require Import c15.Conc c15.Model_C15 c15.Proofs_C15 c15.Proofs_C15_Excl c15.Proofs_C15_Spawn c15.Properties_C15.
 
 Check (C15_single_stopper : forall progs sched s1 s2 x1 x2,
   let w := run cfg_fixed sched (init progs) in
@@ -20,12 +20,12 @@ Check (C15_stw_refuted_thread_runs :
   exists w', wstep cfg_fixed 1 w = Some w' /\ pc (th w' 0) = Stw (SAccess 1 1) /\ pc (th w' 1) = Run /\
              prog (th w' 1) = [ACompute]).
 Check (C15_global_visible_refuted_spawn_window :
-  let w := run cfg_fixed spawn_sched (init spawn_progs) in
+  let w := run cfg_pre_spawn_fix spawn_sched (init spawn_progs) in
   (forall s x, pc (th w s) <> Stw x) /\ pc (th w 2) = Done /\ env_gen w = 1 /\
   pc (th w 1) = Exec /\ seen (th w 1) = 0).
 Check (eq_refl : Excl15 = fun w => forall s p k, pc (th w s) = Stw (SAccess p k) -> safe_to_access (th w k) = true).
 Check (eq_refl : safe_to_access = fun x =>
-  match pc x with PollParked | SpPub | SpJoin | SpParked => paused x | _ => false end).
+  match pc x with PollParked | SpPub | SpJoin | SpReg | SpParked => paused x | _ => false end).
 Check (eq_refl : f10_progs = [[AAlloc true]; [APrim; ACompute]]).
 Check (C15_mutual_exclusion_outside_known : forall progs sched,
   window_free cfg_fixed sched (init progs) = true -> Excl15 (run cfg_fixed sched (init progs))).
@@ -36,14 +36,38 @@ Check (C15_all_stopped_after_first_pass : forall progs sched h s t,
   safe_to_access (th w t) = true).
 Check (C15_window_free_nonvacuous :
   window_free cfg_fixed wf_sched (init wf_progs) = true /\
-  pc (th (run cfg_fixed (firstn 22 wf_sched) (init wf_progs)) 0) = Stw (SAccess 1 1) /\
-  pc (th (run cfg_fixed (firstn 28 wf_sched) (init wf_progs)) 0) = Stw (SAccess 2 1) /\
-  window_free cfg_fixed (firstn 28 wf_sched) (init wf_progs) = true /\
+  pc (th (run cfg_fixed (firstn 27 wf_sched) (init wf_progs)) 0) = Stw (SAccess 1 1) /\
+  pc (th (run cfg_fixed (firstn 33 wf_sched) (init wf_progs)) 0) = Stw (SAccess 2 1) /\
+  window_free cfg_fixed (firstn 33 wf_sched) (init wf_progs) = true /\
   env_gen (run cfg_fixed wf_sched (init wf_progs)) = 1).
 Check (eq_refl : in_known_window = fun w x =>
   (is_exit_checked (pc x) && paused x) || (stw_any w && live x && negb (reg x))).
 Check (eq_refl : known_window = fun w => existsb (in_known_window w) (ths w)).
 Check (eq_refl : is_exit_checked = fun p => match p with SpExitChecked | PollExitChecked => true | _ => false end).
+Check (C15_unregistered_runner_before_fix :
+  let w := run cfg_pre_spawn_fix spawn_overlap_sched (init spawn_progs) in
+  exists s, pc (th w 2) = Stw s /\ live (th w 1) = true /\ reg (th w 1) = false).
+Check (C15_no_unregistered_runner_during_section : forall progs sched h s t,
+  let w := run cfg_fixed sched (init progs) in
+  pc (th w h) = Stw s -> live (th w t) = true -> reg (th w t) = true).
+Check (C15_mutual_exclusion_outside_exit_window : forall progs sched,
+  exit_window_free cfg_fixed sched (init progs) = true -> Excl15 (run cfg_fixed sched (init progs))).
+Check (C15_all_stopped_outside_exit_window : forall progs sched h s t,
+  exit_window_free cfg_fixed sched (init progs) = true ->
+  let w := run cfg_fixed sched (init progs) in
+  pc (th w h) = Stw s -> covered s t = true -> t <> h -> live (th w t) = true ->
+  safe_to_access (th w t) = true).
+Check (C15_exit_window_free_nonvacuous :
+  exit_window_free cfg_fixed wf_sched (init wf_progs) = true /\
+  (let w := run cfg_fixed (firstn 6 wf_sched) (init wf_progs) in
+   pc (th w 0) = SpReg /\ pc (th w 1) = Run /\ reg (th w 1) = false /\ heap w = Some 0) /\
+  (let w := run cfg_fixed (firstn 10 wf_sched) (init wf_progs) in reg (th w 1) = true /\ heap w = None) /\
+  pc (th (run cfg_fixed (firstn 27 wf_sched) (init wf_progs)) 0) = Stw (SAccess 1 1)).
+Check (eq_refl : cfg_fixed = {| keep_guard := true; jit_box_safepoint := true; spawn_locked := true |}).
+Check (eq_refl : cfg_pre_spawn_fix = {| keep_guard := true; jit_box_safepoint := true; spawn_locked := false |}).
+Check (eq_refl : live = fun x => negb (is_done (pc x)) && negb (is_notstarted (pc x))).
+Check (eq_refl : in_exit_window = fun x => is_exit_checked (pc x) && paused x).
+Check (eq_refl : exit_window = fun w => existsb in_exit_window (ths w)).
 Print Assumptions C15_single_stopper.
 Print Assumptions C15_flags_cleared.
 Print Assumptions C15_parked_released.
@@ -53,3 +77,8 @@ Print Assumptions C15_global_visible_refuted_spawn_window.
 Print Assumptions C15_mutual_exclusion_outside_known.
 Print Assumptions C15_all_stopped_after_first_pass.
 Print Assumptions C15_window_free_nonvacuous.
+Print Assumptions C15_unregistered_runner_before_fix.
+Print Assumptions C15_no_unregistered_runner_during_section.
+Print Assumptions C15_mutual_exclusion_outside_exit_window.
+Print Assumptions C15_all_stopped_outside_exit_window.
+Print Assumptions C15_exit_window_free_nonvacuous.
